@@ -992,7 +992,11 @@ func (multi *MultiEpoch) processSlotTransactions(
 								}
 							}
 
-							buffer.add(txResp.Slot, *txResp.Index, txResp)
+							idx := uint64(0) // nodes written before the position index existed have none
+							if txResp.Index != nil {
+								idx = *txResp.Index
+							}
+							buffer.add(txResp.Slot, idx, txResp)
 						}
 					}
 				}
